@@ -174,6 +174,37 @@ pub fn replay(cases: &str, verdicts: &str) {
                     }
                 }
             }
+            "quarter" => {
+                // ordinary values q/4 (ties of both parities and signs among them): the integer-valued maps have the EXACT meaning the
+                // spec gives (round: ties away from zero); every map is the scalar method bit for bit, in Vector and every Matrix shape
+                let q = ints(&c["q"]);
+                let x: Vec<f64> = q.iter().map(|t| *t as f64 / 4.0).collect();
+                let vx = Vector::new(x.clone());
+                let shapes: Vec<(usize, usize)> = c["shapes"].as_array().unwrap().iter().map(|s| { let s = ints(s); (s[0] as usize, s[1] as usize) }).collect();
+                for (name, key) in [("floor", "floor"), ("ceil", "ceil"), ("round", "round"), ("signum", "signum"), ("abs", "abs4")] {
+                    let exp: Vec<f64> = ints(&c[key]).iter().map(|t| if key == "abs4" { *t as f64 / 4.0 } else { *t as f64 }).collect();
+                    let g = guard(|| un!(name, vx).to_vec());
+                    let ok = g.as_ref().map(|d| d.len() == exp.len() && d.iter().zip(&exp).all(|(a, b)| a == b)).unwrap_or(false);
+                    v.check(ok, &format!("Vector.{} on quarters (exact meaning)", name), lc, &c, json!(g.as_ref().map(|d| fjs(d))));
+                    if let Some(sh) = shapes.last() {
+                        let m = Matrix { data: vx.clone(), nrows: sh.0, ncols: sh.1 };
+                        let g = guard(|| un!(name, m));
+                        let ok = g.as_ref().map(|r| r.data.len() == exp.len() && r.data.iter().zip(&exp).all(|(a, b)| a == b) && r.nrows == sh.0 && r.ncols == sh.1).unwrap_or(false);
+                        v.check(ok, &format!("Matrix.{} on quarters (exact meaning)", name), lc, &c, json!(g.as_ref().map(|d| fjs(&d.data))));
+                    }
+                }
+                for name in unary_names() {
+                    let exp: Vec<f64> = x.iter().map(|t| { let t: f64 = *t; un!(name, t) }).collect();
+                    let g = guard(|| un!(name, vx).to_vec());
+                    v.check(g.as_ref().map(|d| same_bits(d, &exp)).unwrap_or(false) && same_bits(&vx, &x), &format!("Vector.{} on quarters", name), lc, &c, json!(g.as_ref().map(|d| fjs(d))));
+                    if let Some(sh) = shapes.first() {
+                        let m = Matrix { data: vx.clone(), nrows: sh.0, ncols: sh.1 };
+                        let g = guard(|| un!(name, m));
+                        let ok = g.as_ref().map(|r| same_bits(&r.data, &exp) && r.nrows == sh.0 && r.ncols == sh.1).unwrap_or(false);
+                        v.check(ok, &format!("Matrix.{} on quarters", name), lc, &c, json!(g.as_ref().map(|d| fjs(&d.data))));
+                    }
+                }
+            }
             "unary" => {
                 let x: Vec<f64> = ints(&c["x"]).iter().map(|i| SPECIALS[*i as usize]).collect();
                 let vx = Vector::new(x.clone());
